@@ -92,10 +92,10 @@ def run(tier):
             L = rng.choice([8, 9, 16, 33, 64, 257, 1000, 2000] + ([20000] if not quick else []))
             fs = rng.choice([0.5, 1.0, 2.5, 10.0])
             nfft = 2 * (L // 2)
-            kind = rng.choice(["1d", "2d"])
+            kind = ["2d", "1d"][j % 2] if j < 8 else rng.choice(["1d", "2d"])
             seed = rng.randrange(0, 2 ** 32)
             fmx = 0.45 * fs      # band limited below the Nyquist frequency
-            dbin = rng.randrange(12)
+            dbin = [11, 0, rng.randrange(12)][j % 3]        # the last and the first direction bin are always among the cases
             if kind == "1d":
                 s, theta = spec1d(j + 1000, fmax=fmx), 0.0
             else:
